@@ -6,7 +6,9 @@ import exprs as E
 PARAM_POOL = ["N", "M", "x", "y"]
 LOCAL_POOL = ["L", "w"]
 SIZE_POOL = ["n", "m", "s", "N"]
-CHILD_NAMES = ["a", "b", "c", "d"]
+# ("in_0z": a child whose connections sort, as strings, BETWEEN those of the routine's own ports in_0 and in_1 -- QREF
+# keeps connections sorted by source, so the connections of one source are not always next to each other)
+CHILD_NAMES = ["a", "b", "c", "d", "in_0z"]
 # (in name order, which is the order QREF keeps them in: G additive, P multiplicative, Q additive, ... -- resources of one type
 # are not always next to each other)
 RES_POOL = [("T", "additive"), ("Q", "additive"), ("P", "multiplicative"), ("info", "other"), ("anc", "qubits"), ("G", "additive")]
@@ -69,6 +71,8 @@ def gen_sequence(rng, syms):
         return {"kind": kind, "ratio": E.num(rng.choice([2, 3, Fraction(1, 2), Fraction(3, 2)]))}
     if kind == "closed_form":
         k = rng.choice(["k", "n_terms", "k"])     # the num_terms symbol need not be the usual one either
+        if syms and rng.random() < 0.5:
+            k = rng.choice(syms)                  # ... and may bear the name of a parameter of the routine (count: N, sum: N*(N+1)/2)
         body = rng.choice([
             E.op("div", E.op("mul", E.sym(k), E.op("add", E.sym(k), E.num(1))), E.num(2)),
             E.op("mul", E.sym(k), p()),
